@@ -23,7 +23,7 @@ RULE = (
     "distinct = digest(plan class, message kinds, fault decisions)"
 )
 ASSUMPTIONS = ["fair stepping: both loops keep iterating until quiescence", "finite-loss plans never fail more than 12 consecutive transmissions of one message"]
-REQUIRED_COUNTERS = ["histories", "messages_sent_c2e", "messages_sent_e2c", "messages_sent_c2d", "frames_dropped", "frames_duplicated", "frames_held", "retries_observed",
+REQUIRED_COUNTERS = ["lossyzmq_histories_checked", "histories", "messages_sent_c2e", "messages_sent_e2c", "messages_sent_c2d", "frames_dropped", "frames_duplicated", "frames_held", "retries_observed",
                      "histories_partition", "sender_raises_observed", "malformed_probes"]
 
 CMD_TYPES = ("TaskSequence", "DatasetPurge", "DatasetTransmitCommand")
@@ -283,7 +283,102 @@ def one_malformed(col: Collector, rng, index: int):
         comms.callback = real_cb
 
 
+def one_lossy(col: Collector, rng, index: int, base_port: int):
+    """LossyZmq: the same oracle over real zmq sockets in real time (vlib/lossyzmq.py, one history per process)."""
+    import json
+    import os
+    import signal
+    import subprocess
+    import tempfile
+    from vlib.common.driver import PY, child_env
+    plan_class = rng.choice(["none", "loss", "loss", "dup", "hold", "mixed"])
+    spec = {"seed": rng.randrange(10**9), "base_port": base_port, "plan_class": plan_class, "n_c": rng.randint(1, 12), "n_e": rng.randint(1, 12)}
+    fd, path = tempfile.mkstemp(prefix="v06z", suffix=".json")
+    with os.fdopen(fd, "w") as f:
+        json.dump(spec, f)
+    out = ""
+    try:
+        p = subprocess.Popen([PY, "-m", "vlib.lossyzmq", path], env=child_env(), cwd=os.path.dirname(os.path.dirname(os.path.dirname(os.path.abspath(__file__)))),
+                             stdout=subprocess.PIPE, stderr=subprocess.DEVNULL, start_new_session=True, text=True)
+        try:
+            out, _ = p.communicate(timeout=60)
+        except subprocess.TimeoutExpired:
+            out = ""
+        finally:
+            try:
+                os.killpg(p.pid, signal.SIGKILL)
+            except ProcessLookupError:
+                pass
+            p.wait()
+    finally:
+        os.unlink(path)
+    r = None
+    for ln in out.splitlines():
+        if ln.startswith("RESULT "):
+            r = json.loads(ln[7:])
+    col.count("lossyzmq_histories")
+    if r is None or r.get("outcome") != "ok":
+        col.observe("lossyzmq_history_without_result")
+        col.count("lossyzmq_inconclusive")
+        return
+    st = r["stats"]
+    for k, v in st.items():
+        col.count(f"lossyzmq_{k}", v)
+    wit = {"tier": "LossyZmq (real sockets)", "plan": plan_class, "stats": st, "raised": r["raised"]}
+    col.case(shape=digest("lossy", plan_class, st.get("dropped", 0) > 0, st.get("duplicated", 0) > 0, st.get("acks_dropped", 0) > 0),
+             nontrivial=(st.get("dropped", 0) + st.get("duplicated", 0) + st.get("acks_dropped", 0) + st.get("held", 0)) > 0, sample=wit)
+    if not r["quiescent"]:
+        col.observe("lossyzmq_history_not_quiescent")
+        col.count("lossyzmq_inconclusive")
+        return
+    for direction, d_sent, d_deliv, types, raised in (
+        ("controller->executor", "c2e", "c2e", CMD_TYPES + ("ExecutorShutdown",), r["raised"]["c2e"]),
+        ("executor->controller", "e2c", "e2c", EVT_TYPES, r["raised"]["e2c"]),
+    ):
+        if raised is not None:
+            # real time on a possibly loaded machine: a give-up may be the harness's own timing -- inconclusive for this history
+            col.observe("lossyzmq_sender_gave_up_in_real_time")
+            col.count("lossyzmq_inconclusive")
+            return
+        sc = Counter(tuple(k) for k in r["sent"][d_sent])
+        dc = Counter(tuple(k) for k in r["delivered"][d_deliv] if k[0] in types)
+        for k, n in dc.items():
+            if n > sc.get(k, 0):
+                col.violation(f"lossyzmq:{'duplicate-delivery' if sc.get(k, 0) else 'delivered-but-never-sent'}:{direction}", f"{k[1][:120]} delivered {n}x, handed to the layer {sc.get(k, 0)}x", wit, index)
+                return
+        for k, n in sc.items():
+            if dc.get(k, 0) < n:
+                col.violation(f"lossyzmq:silent-loss:{direction}", f"{k[1][:120]} handed to the layer {n}x, delivered {dc.get(k, 0)}x, sender quiescent and never raised", wit, index)
+                return
+    col.count("lossyzmq_histories_checked")
+
+
+def run_lossy_shard(spec, col: Collector):
+    import logging
+    logging.disable(logging.CRITICAL)
+    from vlib.common import ports
+    seed, shard = spec["seed"], spec["shard"]
+    block, base = None, None
+    used = 0
+    try:
+        for i in range(spec["n"]):
+            if col.out_of_time():
+                break
+            if block is None or used + 3 > ports.SIZE:
+                if block is not None:
+                    pass  # keep the old block locked: its sockets stay bound until this process exits
+                block, base = ports.acquire()
+                used = 0
+            if col.want(i):
+                guarded(col, i, one_lossy, col, case_rng(seed, shard, i), i, base + used)
+            used += 3
+    finally:
+        pass  # blocks are reclaimed when this shard process has exited
+
+
 def run_shard(spec, col: Collector):
+    if spec.get("kind") == "lossy":
+        return run_lossy_shard(spec, col)
     import logging
     logging.disable(logging.CRITICAL)
     seed, shard = spec["seed"], spec["shard"]
@@ -299,4 +394,5 @@ def plan(tier, seed, scale=1.0):
     q = tier == "quick"
     n, copies = (400, 16) if q else (6000, 16)
     return [dict(shard=f"n{c}", n=int(n * scale), budget_s=70 if q else 1000, timeout_s=200 if q else 1600,
-                 hash_seed=(seed * 73 + c) % 4294967295) for c in range(copies)]
+                 hash_seed=(seed * 73 + c) % 4294967295) for c in range(copies)] + [
+        dict(kind="lossy", phase=1, shard=f"z{c}", n=max(1, int((3 if q else 50) * scale)), budget_s=80 if q else 1200, timeout_s=200 if q else 1800) for c in range(2 if q else 4)]
